@@ -5,7 +5,9 @@ import (
 	"fmt"
 	"reflect"
 	"sort"
+	"strings"
 	"time"
+	"unicode/utf8"
 
 	"github.com/go-json-experiment/json"
 	"github.com/google/uuid"
@@ -60,9 +62,28 @@ func (d *differ) add(field, path string, want, got any) {
 
 func trunc(s string) string {
 	if len(s) > 240 {
-		return s[:240] + "…"
+		s = s[:240] + "…"
 	}
-	return s
+	return escapeInvalid(s)
+}
+
+// escapeInvalid renders every byte that is not part of a valid UTF-8 sequence as \xNN, so that a message shows which bytes
+// differ (a replacement character U+FFFD that really is in the string stays what it is) and log files stay valid UTF-8.
+func escapeInvalid(s string) string {
+	if utf8.ValidString(s) {
+		return s
+	}
+	var sb strings.Builder
+	for i := 0; i < len(s); {
+		r, n := utf8.DecodeRuneInString(s[i:])
+		if r == utf8.RuneError && n == 1 {
+			fmt.Fprintf(&sb, "\\x%02x", s[i])
+		} else {
+			sb.WriteString(s[i : i+n])
+		}
+		i += n
+	}
+	return sb.String()
 }
 
 func (d *differ) str(field, path, want, got string) {
@@ -105,6 +126,21 @@ func (d *differ) state(prefix, path string, want, got *workflow.State) {
 	d.time(prefix+".end", path, want.End, got.End)
 }
 
+// errEqual compares two plugins.Error chains link by link; messages are compared byte for byte (Go string equality, no
+// UTF-8 normalisation: "\xff" and U+FFFD are different).
+func errEqual(a, b *plugins.Error) bool {
+	for depth := 0; depth < 64; depth++ {
+		if a == nil || b == nil {
+			return a == nil && b == nil
+		}
+		if a.Code != b.Code || a.Message != b.Message || a.Permanent != b.Permanent {
+			return false
+		}
+		a, b = a.Wrapped, b.Wrapped
+	}
+	return false
+}
+
 func errChain(e *plugins.Error) string {
 	s := ""
 	for depth := 0; e != nil && depth < 16; depth++ {
@@ -132,7 +168,7 @@ func (d *differ) attempts(path string, want, got []*workflow.Attempt) {
 		if !EquivValues(w.Resp, g.Resp) {
 			d.add("attempt.resp", p, describe(w.Resp), describe(g.Resp))
 		}
-		if errChain(w.Err) != errChain(g.Err) {
+		if !errEqual(w.Err, g.Err) {
 			d.add("attempt.err", p, errChain(w.Err), errChain(g.Err))
 		}
 		d.time("attempt.start", p, w.Start, g.Start)
@@ -440,6 +476,7 @@ func equivRV(a, b reflect.Value, depth int) bool {
 	case reflect.Chan, reflect.Func, reflect.UnsafePointer:
 		return a.Pointer() == b.Pointer()
 	default:
+		// strings land here: Go's == on strings is byte-wise, no UTF-8 normalisation ("\xe9" != "\ufffd")
 		return a.Interface() == b.Interface()
 	}
 }
